@@ -4,6 +4,7 @@ TLC enumerates parameter values (tagged records) and prints, per case, the repre
 every task of the module's pipeline.  The harness instantiates H = sha256(.)[:32], builds the real chain in many
 computation-preserving ways (C02) and compares keys, paths and side files (C12), and groups representations to find
 distinct values sharing one (C03)."""
+import copy
 import hashlib
 import json
 import re
@@ -276,7 +277,7 @@ def realise(variant, x, yv, zv, base, work, rng, global_vars=None):
     if global_vars is None and rng.random() < 0.7:
         global_vars = rng.choice([{'A': 'p', 'B': 'q'}, {'A': '/some/dir', 'B': 7}, type('GV', (), {'A': 'obj', 'B': 'x'})()])
     kw = {'global_vars': global_vars} if global_vars is not None else {}
-    vals = json.loads(json.dumps(vals))  # every realisation owns its data
+    vals = copy.deepcopy(vals)  # every realisation owns its data (a deep copy: mapping keys keep their types)
     if variant == 'dict':
         mod = module()
         return Config(base, name='cfg', data={'tasks': [getattr(mod, s.split('.')[-1]) for s in tasks], **vals}, **kw
